@@ -299,8 +299,8 @@ impl BoundingBox {
 //@ ensures
 //@ - r is Some ==> encloses(*self, r->Some_0) && encloses(*other, r->Some_0)     @@C12.intersect.inside
 //@ - r is Some ==> val(r->Some_0.x1) <= val(r->Some_0.x2) && val(r->Some_0.y1) <= val(r->Some_0.y2)     @@C12.intersect.proper
-//@ - r is Some ==> (forall|b: BoundingBox| #[trigger] encloses(*self, b) && encloses(*other, b) ==> encloses(r->Some_0, b))     @@C12.intersect.greatest
-//@ - r is None ==> !(exists|b: BoundingBox| #[trigger] encloses(*self, b) && encloses(*other, b) && val(b.x1) <= val(b.x2) && val(b.y1) <= val(b.y2))     @@C12.intersect.none
+//@ - r is Some ==> (forall|b: BoundingBox| #[trigger] encloses(*self, b) && encloses(*other, b) ==> encloses(r->Some_0, b))     @@C12.intersect.greatest @@C08.clip.intersect_greatest
+//@ - r is None ==> !(exists|b: BoundingBox| #[trigger] encloses(*self, b) && encloses(*other, b) && val(b.x1) <= val(b.x2) && val(b.y1) <= val(b.y2))     @@C12.intersect.none @@C08.clip.intersect_none
 //@end
 
 //@item src/position.rs :: impl BoundingBox :: fn expand
